@@ -176,6 +176,8 @@ def matcher(mspec, nodes):
             hit = id(n) in ids
             if ret == "bool":
                 return hit
+            if ret == "falsy":  # truthiness decides: a match is any truthy object, a miss any falsy one (not only False / None)
+                return (n._children or "x") if hit else ("", [], 0, {}, ())[id(n) % 5]
             return True if hit else None  # 'none' flavour: False is spelled None
 
         return cb, (lambda n: id(n) in ids)
@@ -529,7 +531,7 @@ def enum_cases(spec, flavour, *, max_subset_nodes=4, thin=False):
     if n <= max_subset_nodes:
         for r in range(n + 1):
             for sub in itertools.combinations(range(n), r):
-                mspecs.append(["set", list(sub), "bool" if (r + sum(sub)) % 2 == 0 else "none"])
+                mspecs.append(["set", list(sub), ("bool", "none", "falsy")[(r + sum(sub)) % 3]])
     else:
         al = ALPHABET[flavour]
         for r in range(len(al) + 1):
@@ -537,7 +539,7 @@ def enum_cases(spec, flavour, *, max_subset_nodes=4, thin=False):
                 mspecs.append(["lab", list(sub)])
     if n > 12:  # larger trees: a few node subsets as callbacks, the labels present as data keys
         for sub in (list(range(0, n, 3)), list(range(1, n, 2)), [0], [n - 1], list(range(n // 2, n))):
-            mspecs.append(["set", sub, "bool" if len(sub) % 2 == 0 else "none"])
+            mspecs.append(["set", sub, ("bool", "none", "falsy")[len(sub) % 3]])
     starts = [-1] + list(range(n))
     for s in starts:
         for ms in mspecs:
